@@ -10,3 +10,6 @@ register_simp_attr keepsSad
 register_simp_attr keepsOps
 register_simp_attr keepsN13
 register_simp_attr keepsGen
+register_simp_attr keepsSucc
+register_simp_attr keepsPost
+register_simp_attr keepsKernel2
